@@ -285,7 +285,7 @@ func runCheck(prop, tier string, overlay map[string][]byte, mutantMode bool) (*C
 					if idxs[k] < len(rep.CoverTraces) {
 						tr = "; path: " + strings.Join(rep.CoverTraces[idxs[k]], " ") + "\n"
 					}
-					vqs = append(vqs, &vq{rep: i, site: sx, text: "; vacuity guard: this must not be unsat\n" + tr + q.SMT(false)})
+					vqs = append(vqs, &vq{rep: i, site: sx, text: "; vacuity guard: this must not be unsat\n; site: " + sx + "\n" + tr + q.SMT(false)})
 					taken++
 				}
 			}
@@ -368,7 +368,7 @@ func runCheck(prop, tier string, overlay map[string][]byte, mutantMode bool) (*C
 				solveList = append(solveList, o)
 			} else if len(deadSites) > 0 {
 				o := &Obligation{Name: fmt.Sprintf("%s/%s/meta:vacuity-return-sites", prop, rep.Key), Kind: "meta", Fn: rep.Key, Result: "unsupported",
-					Unsupp: fmt.Sprintf("vacuity guard: every sampled path to the return at %s is contradictory: the contracts in force make that return unreachable (declare it `unreachable <file:line>` in the contract if that is intended)", strings.Join(deadSites, ", "))}
+					Unsupp: fmt.Sprintf("vacuity guard: every sampled path to the return (or through the loop body) at %s is contradictory: the contracts in force make it unreachable (declare it `unreachable \"<source line>\"` in the contract if that is intended)", strings.Join(deadSites, ", "))}
 				solveList = append(solveList, o)
 			} else {
 				res.Vacuity = append(res.Vacuity, fmt.Sprintf("%s: %d of %d sampled return paths not refutable (assert-false canary fails as it must)", rep.Key, n-refuted, n))
@@ -843,6 +843,7 @@ func (e *Engine) runSweep(name, prop string, res *CheckResult) ([]*Obligation, e
 
 // sourceLine returns the trimmed text of a "path:line" position under /repo.
 func sourceLine(pos string) string {
+	pos = strings.TrimPrefix(pos, "loop body at ")
 	i := strings.LastIndex(pos, ":")
 	if i < 0 {
 		return ""
